@@ -114,6 +114,12 @@ ElemTarget(S, e) ==
 PMin(p) == IF "min" \in DOMAIN p THEN p.min ELSE 1
 PMax(p) == IF "max" \in DOMAIN p THEN p.max ELSE "1"
 
+\* the form of a LOCAL element: its own form attribute, else the elementFormDefault of its schema - whose default is
+\* "unqualified" (the file record says `unqualified` when the schema does not set elementFormDefault="qualified").
+\* An unqualified local element is in no namespace; references to global elements are always qualified.
+ElForm(f, p) == IF "form" \in DOMAIN p THEN p.form ELSE IF "unqualified" \in DOMAIN f THEN "unqualified" ELSE "qualified"
+ElNs(f, p) == IF ElForm(f, p) = "qualified" THEN f.tns ELSE "unqualified"
+
 \* members declared by a content model, flattened, with the occurrence combined along the enclosing particles
 RECURSIVE Flat(_, _, _, _, _, _, _)
 Flat(S, f, it, ps, pmin, pmax, inch) ==
@@ -121,7 +127,7 @@ Flat(S, f, it, ps, pmin, pmax, inch) ==
   LET p == Head(ps)
       emin(m) == IF pmin = 0 \/ inch THEN 0 ELSE m
   IN (CASE p.k = "el" -> << [xml |-> p.n, attr |-> FALSE, min |-> emin(p.min), max |-> MaxMul(p.max, pmax),
-                             target |-> TargetOf(S, f, it, p.ty), ns |-> f.tns, xsd |-> XsdOf(p.ty)] >>
+                             target |-> TargetOf(S, f, it, p.ty), ns |-> ElNs(f, p), xsd |-> XsdOf(p.ty)] >>
         [] p.k = "ref" -> LET e == ResolveElem(S, f, it, p.ref) IN
                           IF e = None THEN << [xml |-> p.ref.n, attr |-> FALSE, min |-> emin(p.min), max |-> MaxMul(p.max, pmax),
                                                target |-> [k |-> "dangling"], ns |-> "?", xsd |-> "-"] >>
